@@ -125,6 +125,9 @@ def run(ids, props, tier):
     for sid in ids:
         sd = os.path.join(HERE, "seeded", sid)
         meta = json.load(open(sd + "/meta.json"))
+        if not os.path.exists(sd + "/patch.diff"):
+            print(f"{sid:28s} superseded (no patch for the current HEAD): skipped", flush=True)
+            continue
         d, tree = fresh_tree("run-" + sid)
         rc, out = sh(f"git apply --whitespace=nowarn {sd}/patch.diff", cwd=tree)
         assert rc == 0, out
@@ -164,6 +167,9 @@ def table():
         m = json.load(open(mp))
         det = sorted(p for p, v in m["detected_by"].items() if v["detected"])
         own = m["detected_by"].get(m["breaks_property"], {})
+        if m.get("superseded"):
+            print(f"{sid:28s} superseded")
+            continue
         print(f"{sid:28s} {'caught' if own.get('detected') else ('MISSED' if own else 'not run'):8s} {','.join(det)}")
 
 
